@@ -1450,7 +1450,7 @@ fn run_termination(seed: u64, thorough: bool, report: &mut Report) -> bool {
     let mut rep = Report::new();
     let mut exceeded = false;
     let mut max_ticks = 0u64;
-    let mut bad = |rep: &mut Report, f: &str, what: &str, inputs: Vec<i128>, got: String, want: String| {
+    let bad = |rep: &mut Report, f: &str, what: &str, inputs: Vec<i128>, got: String, want: String| {
         rep.violation(
             format!("{}:counted", f),
             Json::obj().set("fn", f).set("type", "operation-counting 128-bit Integer of the harness").set("what", what).set("inputs", format!("{:?}", inputs)).set("got", got).set("want", want),
@@ -1458,7 +1458,7 @@ fn run_termination(seed: u64, thorough: bool, report: &mut Report) -> bool {
         );
     };
     for &(a, b) in &pairs {
-        let mut stop = |rep: &mut Report, f: &str, inputs: Vec<i128>, p: PanicInfo| -> bool {
+        let stop = |rep: &mut Report, f: &str, inputs: Vec<i128>, p: PanicInfo| -> bool {
             if p.msg.contains(counted::BUDGET_MSG) {
                 rep.violation(
                     format!("nontermination:{}", f),
@@ -1555,6 +1555,90 @@ fn run_termination(seed: u64, thorough: bool, report: &mut Report) -> bool {
     exceeded
 }
 
+// ------------------------------------------------------------------------------------------------
+// many threads inside long Euclid chains at the same moment: the functions are pure, so what one call returns cannot
+// depend on how many other calls are in progress. 64 threads, released together, each solving a*x + b*y = c and pairs of
+// congruences on consecutive Fibonacci numbers below 2^20 (the deepest recursions inside the stated magnitudes); every
+// result judged by the definition as everywhere else.
+
+fn run_concurrent(thorough: bool, report: &mut Report) {
+    let nthreads = 64usize;
+    let calls = if thorough { 200_000usize } else { 12_000 };
+    let fib: Vec<i128> = fib_table().into_iter().filter(|&f| f >= 3 && f < B).collect();
+    let barrier = std::sync::Arc::new(std::sync::Barrier::new(nthreads));
+    let hs: Vec<_> = (0..nthreads)
+        .map(|t| {
+            let b = barrier.clone();
+            let fib = fib.clone();
+            std::thread::spawn(move || {
+                let mut rng = Rng::new(mix(&[0xC0C0, t as u64]));
+                let mut bad: Vec<(String, Vec<i128>, String)> = Vec::new();
+                let mut n = 0u64;
+                b.wait();
+                for _ in 0..calls {
+                    let k = fib.len() - 1 - rng.usize_below(3.min(fib.len() - 1));
+                    let (a, bb) = (fib[k] as i64, fib[k - 1] as i64);
+                    let c = rng.range_i64(-1000, 1000);
+                    n += 1;
+                    match catch(|| lib!(egcd(a, bb, c))) {
+                        Ok(Some((x, y))) => {
+                            if a as i128 * x as i128 + bb as i128 * y as i128 != c as i128 && bad.len() < 3 {
+                                bad.push(("egcd".into(), vec![a as i128, bb as i128, c as i128], format!("({}, {})", x, y)));
+                            }
+                        }
+                        Ok(None) => {
+                            // consecutive Fibonacci numbers are coprime: every c is solvable
+                            if bad.len() < 3 {
+                                bad.push(("egcd".into(), vec![a as i128, bb as i128, c as i128], "None".into()));
+                            }
+                        }
+                        Err(p) => {
+                            if bad.len() < 3 {
+                                bad.push(("egcd".into(), vec![a as i128, bb as i128, c as i128], format!("panic: {}", p.msg)));
+                            }
+                        }
+                    }
+                    let (a1, a2) = (rng.range_i64(0, a - 1), rng.range_i64(0, bb - 1));
+                    n += 1;
+                    match catch(|| lib!(crt(a1, a, a2, bb))) {
+                        Ok(got) => {
+                            let want = own_crt(a1 as i128, a as i128, a2 as i128, bb as i128);
+                            if got.map(|x| x as i128) != want && bad.len() < 3 {
+                                bad.push(("crt".into(), vec![a1 as i128, a as i128, a2 as i128, bb as i128], format!("{:?} (want {:?})", got, want)));
+                            }
+                        }
+                        Err(p) => {
+                            if bad.len() < 3 {
+                                bad.push(("crt".into(), vec![a1 as i128, a as i128, a2 as i128, bb as i128], format!("panic: {}", p.msg)));
+                            }
+                        }
+                    }
+                }
+                (n, bad)
+            })
+        })
+        .collect();
+    for h in hs {
+        match h.join() {
+            Ok((n, bad)) => {
+                report.count("concurrent_calls", n);
+                for (f, inputs, got) in bad {
+                    report.violation(
+                        format!("{}:concurrent", f),
+                        Json::obj()
+                            .set("fn", f.as_str())
+                            .set("what", "with 64 threads inside the function at once a call returned something else than the same call alone (the definition is violated)")
+                            .set("inputs", format!("{:?}", inputs))
+                            .set("got", got),
+                        vec!["--mode".into(), "concurrent".into()],
+                    );
+                }
+            }
+            Err(_) => report.inconclusive("a worker of the concurrent phase died".to_string()),
+        }
+    }
+}
+
 fn main() {
     let eng = Engine::start("gcdmon");
     let a = &eng.args;
@@ -1581,7 +1665,7 @@ fn main() {
         "nontrivial_note",
         "distinct non-trivial hashes are recorded for tuples whose hash is divisible by nontrivial_hash_stride; counter nontrivial_calls counts all of them",
     );
-    if !["all", "exhaustive", "sampled", "types", "termination"].contains(&mode.as_str()) {
+    if !["all", "exhaustive", "sampled", "types", "termination", "concurrent"].contains(&mode.as_str()) {
         panic!("unknown mode {}", mode);
     }
     if run_termination(seed, thorough, &mut report) || mode == "termination" {
@@ -1590,6 +1674,9 @@ fn main() {
         }
         report.extra("exhaustive", false);
         eng.finish(report);
+    }
+    if mode == "all" || mode == "concurrent" {
+        run_concurrent(thorough, &mut report);
     }
     if mode == "all" || mode == "exhaustive" {
         run_exhaustive(threads, thorough, stride, &mut report);
